@@ -1,6 +1,6 @@
 (* ConvertProofs.v — C16: the conversion statements as compositions through canonical content. *)
 From Cassis Require Import Base Heap Schema Canon Reach JsonDoc Json JsonProofs JsonProofs2 JsonLoadProofs Convert ConvertWf ConvertInline.
-From Cassis Require Lex Xmi XmiDoc XmiProofs XmiDocOk XmiLoad XmiRt XmiRtProofs.
+From Cassis Require Lex Xmi XmiDoc XmiProofs XmiDocOk XmiLoad XmiRt XmiRtProofs XmiRtTotal XmiRtTotalProofs.
 Open Scope Z_scope.
 
 (* inline_outline at a CAS: the XMI view of its canonical content is inline_of of its JSON view.  PROVED for every
@@ -151,6 +151,20 @@ Proof.
   intros H1 H2 HD HJ HW HR HS HLd.
   rewrite (XmiRtProofs.xmi_roundtrip_load fmt_flt parse_flt H1 H2 s c1 x c1' c2 HR HS HLd).
   rewrite (inline_outline s c1 jv HW HJ). reflexivity.
+Qed.
+(* unconditional: under wf_rt_totalb (= wf_rtb + every structure of a type with the feature sofa holds a sofa, what Cas.add
+   guarantees) the XMI reader does load the document: C01_xmi_roundtrip (XmiRtTotalProofs.xmi_roundtrip) *)
+Theorem json_xmi_json_total L s (fmt_flt : flt -> string) (parse_flt : string -> option flt) j0 c1 jv x c1' :
+  (forall f, parse_flt (fmt_flt f) = Some f) -> (forall f, Lex.tok_ok (fmt_flt f)) ->
+  denote_json L s j0 = Ok jv -> canon_json s c1 = Ok jv ->
+  wf_convb s c1 = true -> XmiRtTotal.wf_rt_totalb s c1 = true ->
+  Xmi.save_xmi fmt_flt s c1 = Ok (x, c1') ->
+  exists c2, XmiLoad.load_xmi parse_flt s false x = Ok c2 /\
+             XmiLoad.canon_loaded s c2 = (do v <- inline_of s jv ;; Ok (XmiDoc.norm_xmi s v)).
+Proof.
+  intros H1 H2 HD HJ HW HR HS.
+  destruct (XmiRtTotalProofs.xmi_roundtrip fmt_flt parse_flt H1 H2 s c1 x c1' HR HS) as (c2 & HL & HC).
+  exists c2. split; [exact HL|]. rewrite HC, (inline_outline s c1 jv HW HJ). reflexivity.
 Qed.
 (* the same leg over the declarative reading of the XMI document (no reader mechanism, no wf_rtb) *)
 Theorem json_xmi_json_denote L s (fmt_flt : flt -> string) (parse_flt : string -> option flt) j0 c1 jv x c1' :
